@@ -155,3 +155,11 @@ Theorem C17_check_quorum_steps_down_reachable : forall st r H ops rf,
   left_term st r ops.
 Proof. exact RoleProofs.check_quorum_steps_down_reachable. Qed.
 Print Assumptions C17_check_quorum_steps_down_reachable.
+
+(* a granted pre-vote response at a node that is not a pre-candidate (a delayed answer to a
+   pre-campaign that is over) changes nothing, whatever term it carries *)
+Theorem C17_prevote_grant_elsewhere_ignored : forall st r m r' e,
+  m_type m = MsgPreVoteResp -> m_reject m = false -> r_state r <> StatePreCandidate ->
+  step st r m = Ok (r', e) -> r' = r.
+Proof. exact RoleProofs.prevote_grant_elsewhere_ignored. Qed.
+Print Assumptions C17_prevote_grant_elsewhere_ignored.
